@@ -10,7 +10,8 @@ A *history* is a JSON-serialisable dict::
 
 Public API
 ----------
-``gen_history(rng, tier, ndims=None, mesh_kinds=None, ops=None, maxops=None) -> dict``
+``gen_history(rng, tier, ndims=None, mesh_kinds=None, ops=None, maxops=None) -> dict``  (8 % of the unrestricted draws are
+    ``gen_periodic_slice_history`` scenarios: periodic mesh, slice along the periodic axis, refinement at the cut; key ``scenario``)
     Draw a random history from a ``numpy.random.Generator``.  ``tier`` is ``'quick'`` or
     ``'thorough'`` (thorough: larger meshes, longer histories, maxrefine up to 3 in 2-D).
     ``ndims`` fixes the mesh dimension (1, 2 or 3; default: random 1-2, callers sample 3-D
@@ -478,6 +479,8 @@ def gen_history(rng, tier='quick', ndims=None, mesh_kinds=None, ops=None, maxops
     big = tier == 'thorough'
     if ndims is None:
         ndims = int(rng.choice([1, 2], p=[.3, .7]))
+    if not mesh_kinds and not ops and rng.random() < .08:
+        return gen_periodic_slice_history(rng, tier, ndims)
     mesh_spec = gen_mesh(rng, ndims, tier, mesh_kinds)
     geom_spec = gen_geometry(rng, ndims, tier)
     if geom_spec['kind'] == 'quad' and (mesh_spec['kind'] == 'multipatch' or mesh_spec.get('etype') == 'multipatch' or mesh_spec.get('periodic')):
@@ -590,6 +593,63 @@ def gen_history(rng, tier='quick', ndims=None, mesh_kinds=None, ops=None, maxops
                 break
         oplist.append(op)
     return dict(version=VERSION, ndims=ndims, mesh=mesh_spec, geom=geom_spec, ops=oplist)
+
+
+def gen_periodic_slice_history(rng, tier='quick', ndims=2):
+    """Scenario histories: a periodic structured mesh (>= 3 elements along the periodic axis), SLICED along the periodic direction so that the
+    cut no longer wraps, then refined near the cut in one of the ways that re-derive boundary indices on a finer level:
+    refined_by (all / random elements), hinter, boundary -> refine, refine -> boundary, refine -> refined_by; optionally one more random
+    operation.  (A fine boundary element placed at an index wrapped with the coarse period is only visible in the x.n flux / first moments.)"""
+    n = int(rng.integers(3, 7))
+    kind = 'line' if ndims == 1 else str(rng.choice(['rect', 'tensor'], p=[.8, .2]))
+    if kind == 'line':
+        mesh = dict(kind='line', ndims=1, n=n, periodic=True)
+        paxis = 0
+    else:
+        shape = [int(rng.integers(1, 3)) for _ in range(ndims)]
+        paxis = int(rng.integers(ndims))
+        shape[paxis] = n
+        if ndims == 3:
+            shape = [min(v, 2) if k != paxis else min(n, 4) for k, v in enumerate(shape)]
+            n = shape[paxis]
+        if rng.random() < .3:
+            k = int(rng.integers(ndims))
+            shape[k] = [0.] + numpy.cumsum(rng.choice([.5, 1., 1.5], size=shape[k])).tolist()
+        mesh = dict(kind=kind, ndims=ndims, shape=shape, periodic=[paxis])
+    geom = gen_geometry(rng, ndims, tier)
+    if geom['kind'] == 'quad':
+        geom = dict(kind='affine', A=geom['A'], b=geom['b'])
+    ops = []
+    pre_refine = rng.random() < .25 and ndims < 3
+    if pre_refine:
+        ops.append(dict(op='refine'))
+    # a proper sub-range of the periodic axis, biased towards cuts in the upper half of the period
+    i = int(rng.integers(0, n - 1))
+    j = int(rng.integers(max(i + 1, (n + 1) // 2), n + 1))
+    if (i, j) == (0, n):
+        i = 1
+    ranges = [[0., 1.] for _ in range(ndims)]
+    ranges[paxis] = [i / n, j / n]
+    ops.append(dict(op='slice', ranges=ranges))
+    how = str(rng.choice(['refined_by', 'refined_by_all', 'hinter', 'boundary-refine', 'refine-boundary', 'refine-refined_by']))
+    if kind == 'tensor' and how in ('refined_by', 'refined_by_all', 'hinter', 'refine-refined_by'):
+        how = str(rng.choice(['boundary-refine', 'refine-boundary']))
+    seed = lambda: int(rng.integers(2**31))
+    if how == 'refined_by':
+        ops.append(dict(op='refined_by', frac=_f(rng.choice([.25, .5, .75])), seed=seed(), prefer='any'))
+    elif how == 'refined_by_all':
+        ops.append(dict(op='refined_by', frac=1., seed=seed(), prefer='any'))
+    elif how == 'hinter':
+        ops.append(dict(op='hinter', a=dict(frac=.5, seed=seed()), b=dict(frac=.5, seed=seed())))
+    elif how == 'boundary-refine':
+        ops += [dict(op='boundary', group=None), dict(op='refine')]
+    elif how == 'refine-boundary':
+        ops += [dict(op='refine'), dict(op='boundary', group=None)]
+    else:
+        ops += [dict(op='refine'), dict(op='refined_by', frac=_f(rng.choice([.25, .5])), seed=seed(), prefer='any')]
+    if rng.random() < .4 and not how.endswith('boundary') and how != 'boundary-refine':
+        ops.append(dict(op='refined_by', frac=.25, seed=seed(), prefer='any') if kind != 'tensor' else dict(op='refine'))
+    return dict(version=VERSION, ndims=ndims, mesh=mesh, geom=geom, ops=ops, scenario='periodic-slice-' + how)
 
 
 def _mesh_groups(spec):
